@@ -55,14 +55,26 @@ class GcInsideListener(SimListener):
 
 
 class VetoListener(SimListener):
+    """Vetoes the k-th event whose FIRST announcement is ``hook``.
+
+    Only the first announcement of an event is ever vetoed: it precedes every modification
+    ("callbacks are made after sanity checks but before modifications"), so a veto there is the
+    documented right of a listener.  Vetoing a nested announcement in the middle of a compound
+    operation (implicit disconnects, bulk removes) would leave a half-done edit behind, which no
+    listed property promises to survive.
+    """
+
     def __init__(self, w, hook, at):
         self.hook = hook
         self.at = at
         self.seen = 0
+        self.last_event = None
         super().__init__(w)
 
     def on(self, hook, args):
-        if hook == self.hook:
+        first = self.w.cur_event != self.last_event
+        self.last_event = self.w.cur_event
+        if first and hook == self.hook:
             self.seen += 1
             if self.seen == self.at:
                 self.w.count("fault.veto")
